@@ -102,19 +102,29 @@ func (u *User) hasFilePermission(cleanPath, permissionType string) (bool, error)
 	return hasPermission, nil
 }
 
+// The known permission types, a permission may be prefixed with one of them.
+var permissionTypes = []string{"readfiles"}
+
+// splitPermission splits "TYPE:RULE" into its type and its rule. Only a known
+// permission type counts as a prefix, as the rule itself is a regular
+// expression which may contain colons as well (e.g. "[[:alpha:]]").
+func splitPermission(permission string) (string, string) {
+	for _, typeStr := range permissionTypes {
+		if strings.HasPrefix(permission, typeStr+":") {
+			return typeStr, permission[len(typeStr)+1:]
+		}
+	}
+	return "readfiles", permission // Assume ReadFiles by default.
+}
+
 func (u *User) iteratePaths(cleanPath, permissionType string) (bool, error) {
 	// By default assume no permissions
 	hasPermission := false
 	for _, permission := range u.permissions {
-		typeStr := "readfiles" // Assume ReadFiles by default.
 		var regexStr string
 		var negate bool
 
-		splitted := strings.Split(permission, ":")
-		if len(splitted) > 1 {
-			typeStr = splitted[0]
-			permission = strings.Join(splitted[1:], ":")
-		}
+		typeStr, permission := splitPermission(permission)
 
 		dlog.Server.Debug(u, cleanPath, typeStr, permission)
 		if typeStr != permissionType {
